@@ -7,6 +7,9 @@
     reproduces auto o cmd             the property: sh + curl turn `cmd` into the request `o`, up to automatic headers
     wf r                              what `requests` and HTTP syntax guarantee of a prepared request
     Variants ⟨emptyHeader, dataAt, filter⟩   asFound | repaired at the three sites of defect F16
+    run mk h, findFailureData         the recorder after a history of operations; ScenarioRecorder.find_failure_data
+    expectedData h id, lastSent, lastCase   the specification: what the report of a failure of test case `id` stands for
+    codeSample vs tbl prep fd         failure_data.case.as_curl_command(headers=failure_data.headers, verify=…)
 -/
 import SV.Proofs.C09
 
@@ -295,6 +298,143 @@ theorem utf8_ascii (bs : List Nat) (h : ∀ b ∈ bs, b < 128) : utf8DecodeRepla
       have := ih (fun x hx => h x (by simp [hx])) f (by simp at hle; omega)
       simp [utf8Go, hb, this]
 
+/-! ### which request the failure report stands for (`ScenarioRecorder.find_failure_data` + the `on_failure` glue) -/
+
+/-- **Selection, every history.** After any sequence of recorder operations, `find_failure_data` returns exactly
+    what the property asks for: the test case most recently recorded under the id the failure is reported for (the
+    one it names, else the case under validation), the headers of the request most recently sent *for that id*, and
+    the `verify` flag of *its* response — and fails exactly when one of them is not on record. -/
+theorem find_failure_data_selects {σ : Type} (mk : FailureData → σ) (h : List Op) (pid : Str) (f : Option Str) :
+    findFailureData (run mk h) pid f = expectedData h (failingId pid f) :=
+  findFailureData_run mk h pid f
+
+/-- The check is stored under the id of the case the sample was built for, which is the id the failure is reported
+    for (`record_check_failure(case_id=failure_data.case.id, …)`). -/
+theorem failure_stored_under_reported_id {σ : Type} (mk : FailureData → σ) (h : List Op) (n pid : Str) (f : Option Str)
+    (fd : FailureData) (hok : findFailureData (run mk h) pid f = .ok fd) :
+    fd.case.id = failingId pid f ∧
+      dGet (run mk (h ++ [.onFailure n pid f])).checks (failingId pid f)
+        = some ((dGet (run mk h).checks (failingId pid f)).getD [] ++ [⟨n, some (mk fd)⟩]) := by
+  have hid : fd.case.id = failingId pid f := by
+    rw [findFailureData_run] at hok
+    exact expectedData_id h _ fd hok
+  refine ⟨hid, ?_⟩
+  rw [run_snoc]
+  simp [step, hok, dGet_appendCheck, hid]
+
+/-- **Every sample in the final report.** Whatever the history, a failed check listed under test case `k` carries
+    the sample built from the case and the exchange that were on record for `k` itself when the failure was
+    reported (after some prefix of the history). -/
+theorem recorded_samples_are_for_their_case {σ : Type} (mk : FailureData → σ) (h : List Op) (k : Str)
+    (nodes : List (CheckNode σ)) (node : CheckNode σ) (s : σ)
+    (hk : dGet (run mk h).checks k = some nodes) (hmem : node ∈ nodes) (hs : node.sample = some s) :
+    ∃ n fd, n ≤ h.length ∧ expectedData (h.take n) k = .ok fd ∧ s = mk fd :=
+  samplesOk_run mk h k nodes node s hk hmem hs
+
+/-- **End to end.** For every code variant that reproduces prepared requests (`ReproducesAll`, proved for the
+    repaired code), every history, and every reported failure: the code sample re-sends the request that was sent
+    for the reported test case — its method, URL, body, the first value of each of its headers, and the `verify`
+    flag of its response — provided re-preparing the case with those headers gives that request again (`Faithful`:
+    `requests` is idempotent here, up to the order of the header fields) and the request is well-formed. -/
+theorem failure_sample_reproduces (vs : Variants) (hall : ReproducesAll vs) (tbl : Table)
+    (prep : Nat → List (Str × Str) → Prepared) {σ : Type} (mk : FailureData → σ) (h : List Op) (pid : Str)
+    (f : Option Str) (fd : FailureData) (hok : findFailureData (run mk h) pid f = .ok fd) :
+    ∃ ia, lastSent h (failingId pid f) = some ia ∧ ia.verify = some fd.verify
+      ∧ lastCase h (failingId pid f) = some fd.case ∧ firstValues ia.request.headers = .ok fd.headers
+      ∧ (Faithful prep fd.case ia fd.headers → wf (preparedReq (prep fd.case.obj fd.headers) fd.verify) = true →
+          reproduces tbl (sentOriginal ia fd.headers fd.verify) (codeSample vs tbl prep fd) = true) := by
+  rw [findFailureData_run] at hok
+  unfold expectedData at hok
+  cases hc : lastCase h (failingId pid f) with
+  | none => simp [hc] at hok
+  | some c =>
+    cases hi : lastSent h (failingId pid f) with
+    | none => simp [hc, hi] at hok
+    | some ia =>
+      cases hv : ia.verify with
+      | none => simp [hc, hi, hv] at hok
+      | some v =>
+        cases hh : firstValues ia.request.headers with
+        | error e => simp [hc, hi, hv, hh] at hok
+        | ok hs =>
+          simp only [hc, hi, hv, hh, Except.ok.injEq] at hok
+          subst hok
+          refine ⟨ia, rfl, hv, rfl, hh, ?_⟩
+          intro hfa hwf
+          obtain ⟨h1, h2, h3, h4⟩ := hfa
+          rw [codeSample_eq]
+          exact reproduces_of_faithful vs hall tbl _ _ ia _ h1 h2 h3 h4 hwf
+
+/-- the same, instantiated with the repaired `generate` (the code of the snapshot after the F16 fixes) -/
+theorem failure_sample_reproduces_repaired (tbl : Table) (prep : Nat → List (Str × Str) → Prepared) {σ : Type}
+    (mk : FailureData → σ) (h : List Op) (pid : Str) (f : Option Str) (fd : FailureData)
+    (hok : findFailureData (run mk h) pid f = .ok fd) :
+    ∃ ia, lastSent h (failingId pid f) = some ia ∧ ia.verify = some fd.verify
+      ∧ (Faithful prep fd.case ia fd.headers → wf (preparedReq (prep fd.case.obj fd.headers) fd.verify) = true →
+          reproduces tbl (sentOriginal ia fd.headers fd.verify)
+            (codeSample ⟨.repaired, .repaired, .repaired⟩ tbl prep fd) = true) := by
+  obtain ⟨ia, h1, h2, _, _, h5⟩ := failure_sample_reproduces _ reproduces_repaired tbl prep mk h pid f fd hok
+  exact ⟨ia, h1, h2, h5⟩
+
+/-- **Necessity: the headers must be those of the failing request.** A command printed (by the repaired code) for
+    a prepared request that carries a header which is neither automatic nor a header of the original request does
+    not reproduce the original — whatever else agrees. (The shape of taking the recorded request from another test
+    case, e.g. the parent's credentials shown for the derived no-auth request.) -/
+theorem sample_with_foreign_header_fails (tbl auto : Table) (r : Req) (hwf : wf r = true) (o : Original)
+    (kv : Str × Str) (hmem : kv ∈ r.headers) (hkeep : isAutoValued tbl kv.1 kv.2 = false)
+    (hforeign : o.headers.contains kv = false) :
+    reproduces auto o (generate ⟨.repaired, .repaired, .repaired⟩ tbl r) = false := by
+  rw [reproduces_generate _ tbl auto r hwf o]
+  have hall : ∀ kv ∈ r.headers, nameOk kv.1 = true ∧ valueOk kv.2 = true := by
+    simp only [wf, Bool.and_eq_true, List.all_eq_true] at hwf
+    exact hwf.2
+  have hkept : ∀ kv ∈ filterHeaders .repaired tbl r.known r.headers, nameOk kv.1 = true ∧ valueOk kv.2 = true :=
+    fun kv hkv => hall kv (List.mem_filter.1 hkv).1
+  have hs := sent_eq .repaired _ hkept
+  simp only at hs
+  have hin : kv ∈ filterHeaders .repaired tbl r.known r.headers := by
+    simp [filterHeaders, List.mem_filter, hmem, hkeep]
+  have : headersOk auto o.headers (filterHeaders .repaired tbl r.known r.headers) = false := by
+    simp only [headersOk, Bool.and_eq_false_iff]
+    left
+    rw [Bool.eq_false_iff]
+    intro hc
+    have := List.all_eq_true.1 hc kv hin
+    simp at this
+    simp [this] at hforeign
+  simp [hs, sameRequest, this]
+
+/-- Witness (kernel-checked): in the `ignored_auth` scenario the code's selection reproduces the derived request,
+    the command built from the parent's exchange does not (it carries the valid key the failing request lacked). -/
+theorem parent_request_witness :
+    findFailureData (run (codeSample ⟨.repaired, .repaired, .repaired⟩ [] wPrep) wHistory) "P".toList (some "D".toList)
+        = .ok ⟨⟨"D".toList, 1⟩, [("X-Tenant".toList, "it's acme".toList)], false⟩
+    ∧ reproduces [] (sentOriginal ⟨wDerivedReq, some false⟩ [("X-Tenant".toList, "it's acme".toList)] false)
+        (codeSample ⟨.repaired, .repaired, .repaired⟩ [] wPrep
+          ⟨⟨"D".toList, 1⟩, [("X-Tenant".toList, "it's acme".toList)], false⟩) = true
+    ∧ reproduces [] (sentOriginal ⟨wDerivedReq, some false⟩ [("X-Tenant".toList, "it's acme".toList)] false)
+        (codeSample ⟨.repaired, .repaired, .repaired⟩ [] wPrep wParentData) = false := by
+  refine ⟨by decide +kernel, by decide +kernel, by decide +kernel⟩
+
+/-! ### the report: `format_failures` prints the command on an indented line -/
+
+/-- The failure report shows the command after an indentation of blanks (`"Reproduce with: \n\n    {curl}"`): a
+    POSIX shell reads the indented line as the same words, for any command text and any indentation. -/
+theorem indented_command_reads_the_same (n : Nat) (cmd : Str) :
+    shParse (List.replicate n ' ' ++ cmd) = shParse cmd := by
+  induction n with
+  | zero => rfl
+  | succ k ih =>
+    have h : shParse (' ' :: (List.replicate k ' ' ++ cmd)) = shParse (List.replicate k ' ' ++ cmd) := by
+      simp [shParse, shGo, NUL, pushWord]
+    simpa [List.replicate_succ] using h.trans ih
+
+/-- … hence the line of the report reproduces whatever the code sample reproduces. -/
+theorem report_line_reproduces (auto : Table) (o : Original) (n : Nat) (cmd : Str) :
+    reproduces auto o (List.replicate n ' ' ++ cmd) = reproduces auto o cmd := by
+  unfold reproduces
+  rw [indented_command_reads_the_same]
+
 /-! ### non-vacuity: the hypotheses are met by concrete, non-trivial requests -/
 
 /-- a well-formed request with quotes, blanks, `$`, an empty header value and a body starting with '@' -/
@@ -334,5 +474,33 @@ example : (("X-Empty".toList, []) : Str × Str) ∈ filterHeaders .asFound [] []
 example : bodyStartsAt (bodyOf (some "@etc".toList)) = true := by decide
 example : isExcluded [("Accept".toList, some "*/*".toList)] "accept".toList = true
     ∧ isAuto [("Accept".toList, some "*/*".toList)] ("accept".toList, "application/json".toList) = false := by decide
+
+/-- recorder theorems: the scenario of the witness meets the hypotheses of `failure_sample_reproduces`
+    (a successful selection, a faithful `prepare_request`, a well-formed request with quoting) -/
+example : let fd : FailureData := ⟨⟨"D".toList, 1⟩, [("X-Tenant".toList, "it's acme".toList)], false⟩
+    findFailureData (run (fun fd => fd) wHistory) "P".toList (some "D".toList) = .ok fd
+      ∧ Faithful wPrep fd.case ⟨wDerivedReq, some false⟩ fd.headers
+      ∧ wf (preparedReq (wPrep fd.case.obj fd.headers) fd.verify) = true := by
+  refine ⟨by decide +kernel, ⟨rfl, rfl, rfl, fun _ => Iff.rfl⟩, by decide +kernel⟩
+
+/-- … of `recorded_samples_are_for_their_case` / `failure_stored_under_reported_id`: the failed check is listed
+    under the derived case `D`, not under the parent -/
+example : dGet (run (fun fd => fd) wHistory).checks "D".toList
+      = some [⟨"ignored_auth".toList, some ⟨⟨"D".toList, 1⟩, [("X-Tenant".toList, "it's acme".toList)], false⟩⟩]
+    ∧ dGet (run (fun fd => fd) wHistory).checks "P".toList = none := by
+  refine ⟨by decide +kernel, by decide +kernel⟩
+
+/-- … of `sample_with_foreign_header_fails`: the parent's key is a kept header that the derived request lacks -/
+example : (("X-API-Key".toList, "valid-key".toList) : Str × Str) ∈ wParentData.headers
+    ∧ isAutoValued [] "X-API-Key".toList "valid-key".toList = false
+    ∧ (sentOriginal ⟨wDerivedReq, some false⟩ [("X-Tenant".toList, "it's acme".toList)] false).headers.contains
+        ("X-API-Key".toList, "valid-key".toList) = false := by
+  refine ⟨by decide, by decide, by decide⟩
+
+/-- the error cases of the selection are reachable: no exchange on record, an exchange without a response -/
+example : findFailureData (run (fun fd => fd) [.recordCase none ⟨"P".toList, 0⟩]) "P".toList none = .error .keyError
+    ∧ findFailureData (run (fun fd => fd) [.recordCase none ⟨"P".toList, 0⟩, .recordRequest "P".toList wParentReq])
+        "P".toList (some []) = .error .assertionError := by
+  refine ⟨by decide +kernel, by decide +kernel⟩
 
 end SV.Props.C09
